@@ -623,4 +623,231 @@ theorem failing_filter_upsert_ignored {C : Type} [DecidableEq C] (cfg : Cfg) (ck
     handle cfg cks cache ev id obj = (cache, none) :=
   handle_filter_error cfg cks cache ev id obj hev (by rw [applyFilter_eq, hp]; rfl)
 
+/-! ## Legacy hooks (configVersion v0) and hooks with several bindings -/
+
+theorem convertV0Names_acc (names : List String) (acc : List WatchEvent) :
+    convertV0Names names acc = (names.mapM WatchEvent.ofV0Name?).map (fun l => acc ++ l) := by
+  induction names generalizing acc with
+  | nil => simp [convertV0Names]
+  | cons n rest ih =>
+    unfold convertV0Names
+    cases hn : WatchEvent.ofV0Name? n with
+    | none => simp [List.mapM_cons, hn]
+    | some t =>
+      simp only [ih, List.mapM_cons, hn]
+      cases rest.mapM WatchEvent.ofV0Name? <;> simp
+
+theorem ofV0Name_eq (n : String) (t : WatchEvent) :
+    WatchEvent.ofV0Name? n = some t ↔ n = Spec.v0Name t := by
+  constructor
+  · intro h
+    unfold WatchEvent.ofV0Name? at h
+    split at h <;> simp at h <;> subst h <;> rfl
+  · intro h; subst h; cases t <;> rfl
+
+theorem mapM_ofV0Name_mem (names : List String) (l : List WatchEvent)
+    (h : names.mapM WatchEvent.ofV0Name? = some l) (ev : WatchEvent) :
+    ev ∈ l ↔ Spec.v0Name ev ∈ names := by
+  induction names generalizing l with
+  | nil => simp at h; subst h; simp
+  | cons n rest ih =>
+    rw [List.mapM_cons] at h
+    cases hn : WatchEvent.ofV0Name? n with
+    | none => simp [hn] at h
+    | some t =>
+      cases hr : rest.mapM WatchEvent.ofV0Name? with
+      | none => simp [hn, hr] at h
+      | some l' =>
+        simp [hn, hr] at h
+        subst h
+        have hn' := (ofV0Name_eq n t).1 hn
+        rw [List.mem_cons, List.mem_cons, ih l' hr, hn']
+        constructor
+        · rintro (h | h)
+          · left; rw [h]
+          · right; exact h
+        · rintro (h | h)
+          · left; cases ev <;> cases t <;> simp_all [Spec.v0Name]
+          · right; exact h
+
+/-- **C08 configured_types_v0_listed.** A legacy binding (`event: [add, update, delete …]`, any
+order, repeats allowed): an event type is in the list the loader hands to the monitor iff the
+binding lists its legacy name. -/
+theorem configured_types_v0_listed (names : List String) (l : List WatchEvent)
+    (h : configuredTypesV0 names = some l) (ev : WatchEvent) :
+    ev ∈ l ↔ Spec.listedV0 names ev = true := by
+  unfold configuredTypesV0 at h
+  rw [convertV0Names_acc] at h
+  cases hm : names.mapM WatchEvent.ofV0Name? with
+  | none => simp [hm] at h
+  | some l' =>
+    simp [hm, withEventTypes] at h
+    subst h
+    simp [Spec.listedV0, mapM_ofV0Name_mem names l' hm]
+
+/-- The loader refuses a legacy binding iff one of its names is not add / update / delete. -/
+theorem configured_types_v0_unsupported (names : List String) :
+    configuredTypesV0 names = none ↔ ∃ n ∈ names, WatchEvent.ofV0Name? n = none := by
+  unfold configuredTypesV0
+  rw [convertV0Names_acc]
+  induction names with
+  | nil => simp
+  | cons n rest ih =>
+    rw [List.mapM_cons]
+    cases hn : WatchEvent.ofV0Name? n with
+    | none => simp [hn]
+    | some t =>
+      cases hr : rest.mapM WatchEvent.ofV0Name? with
+      | none =>
+        simp [hr] at ih
+        obtain ⟨m, hm, hm'⟩ := ih
+        simp [hn]
+        exact ⟨m, hm, hm'⟩
+      | some l' =>
+        simp [hr] at ih
+        simp [hn]
+        exact ih
+
+example : configuredTypesV0 ["delete", "add", "add"] = some [.deleted, .added, .added]
+    ∧ configuredTypesV0 [] = some [] ∧ configuredTypesV0 ["add", "patch"] = none := by decide
+
+theorem convertHookV0_acc (bs : List (List String)) (acc ms : List (List WatchEvent))
+    (h : convertHookV0 bs acc = some ms) :
+    ∃ ms', ms = acc ++ ms' ∧ bs.map configuredTypesV0 = ms'.map some := by
+  induction bs generalizing acc with
+  | nil => simp [convertHookV0] at h; exact ⟨[], by simp [h]⟩
+  | cons b rest ih =>
+    unfold convertHookV0 at h
+    cases hb : configuredTypesV0 b with
+    | none => simp [hb] at h
+    | some m =>
+      simp only [hb] at h
+      obtain ⟨ms', h1, h2⟩ := ih _ h
+      exact ⟨m :: ms', by simp [h1], by simp [hb, h2]⟩
+
+/-- **C08 hook_v0_each_binding_its_own_list.** A legacy hook with any number of `onKubernetesEvent`
+bindings: the loader builds one monitor per binding, in order, and the k-th monitor fires on an
+event type iff the k-th binding lists it — whatever the other bindings of the hook say. -/
+theorem hook_v0_each_binding_its_own_list (bs : List (List String)) (ms : List (List WatchEvent))
+    (h : convertHookV0 bs [] = some ms) :
+    ms.length = bs.length ∧
+    ∀ (k : Nat) (b : List String) (m : List WatchEvent), bs[k]? = some b → ms[k]? = some m →
+      ∀ ev, ev ∈ m ↔ Spec.listedV0 b ev = true := by
+  obtain ⟨ms', h1, h2⟩ := convertHookV0_acc bs [] ms h
+  simp at h1; subst h1
+  have hlen : ms.length = bs.length := by
+    have := congrArg List.length h2; simpa using this.symm
+  refine ⟨hlen, ?_⟩
+  intro k b m hb hm ev
+  have hk : (bs.map configuredTypesV0)[k]? = (ms.map some)[k]? := by rw [h2]
+  simp [List.getElem?_map, hb, hm] at hk
+  exact configured_types_v0_listed b m hk ev
+
+theorem convertHookV1_acc (bs : List (Option (List WatchEvent) × Option (List WatchEvent)))
+    (acc : List (List WatchEvent)) :
+    convertHookV1 bs acc = acc ++ bs.map (fun b => configuredTypes b.1 b.2) := by
+  induction bs generalizing acc with
+  | nil => simp [convertHookV1]
+  | cons b rest ih => simp [convertHookV1, ih]
+
+/-- **C08 hook_v1_each_binding_its_own_list.** The same for a v1 hook with any number of `kubernetes`
+bindings, each writing `executeHookOnEvent` / `watchEvent` in any of the ways. -/
+theorem hook_v1_each_binding_its_own_list
+    (bs : List (Option (List WatchEvent) × Option (List WatchEvent))) :
+    (convertHookV1 bs []).length = bs.length ∧
+    ∀ (k : Nat) (b : Option (List WatchEvent) × Option (List WatchEvent)) (m : List WatchEvent),
+      bs[k]? = some b → (convertHookV1 bs [])[k]? = some m →
+      ∀ ev, ev ∈ m ↔ Spec.listed b.1 b.2 ev = true := by
+  rw [convertHookV1_acc]
+  refine ⟨by simp, ?_⟩
+  intro k b m hb hm ev
+  simp [List.getElem?_map, hb] at hm
+  subst hm
+  exact configured_types_listed b.1 b.2 ev
+
+example : convertHookV0 [["add"], ["delete"], []] [] = some [[.added], [.deleted], []]
+    ∧ convertHookV1 [(some [.added], none), (none, some [.deleted]), (none, none)] []
+      = [[.added], [.deleted], [.added, .modified, .deleted]] := by decide
+
+/-- Witness (a variant that is not the code): with one conversion buffer re-sliced for every binding
+and a `WithEventTypes` that keeps the slice it is given, the first of the two bindings
+`event: [add]`, `event: [delete]` ends up listening to Deleted — which it does not list — and not to
+Added, which it lists. -/
+theorem shared_buffer_witness :
+    convertHookV0Shared [[.added], [.deleted]] = [[.deleted], [.deleted]]
+    ∧ Spec.listedV0 ["add"] .deleted = false ∧ Spec.listedV0 ["add"] .added = true
+    ∧ convertHookV0 [["add"], ["delete"]] [] = some [[.added], [.deleted]] := by decide
+
+/-- **C08 v0_binding_fires_iff.** `fires_iff` for an informer whose monitor was built by the loader
+from a legacy binding. -/
+theorem v0_binding_fires_iff {C : Type} [DecidableEq C] (names : List String) (l : List WatchEvent)
+    (hl : configuredTypesV0 names = some l)
+    (cfg : Cfg) (hcfg : cfg.types = l) (cks : J → C)
+    (cache : Cache C) (known : Spec.Known) (ev : WatchEvent) (id : Nat) (obj p : J)
+    (hrel : Rel cks cache known) (hp : project cfg obj = some p)
+    (hinj : ∀ q, aget id known = some q → cks q = cks p → q = p) :
+    (handle cfg cks cache ev id obj).2.isSome = true ↔
+      (ev = .deleted ∧ Spec.listedV0 names .deleted = true) ∨
+      (ev ≠ .deleted ∧ Spec.listedV0 names ev = true ∧ aget id known ≠ some p) := by
+  rw [fires_iff cfg cks cache known ev id obj p hrel hp hinj, hcfg,
+    configured_types_v0_listed names l hl, configured_types_v0_listed names l hl]
+
+/-! ## Re-delivery of the very same store object, with snapshot reads in between -/
+
+theorem snapshotHeap_id (addrs : List Nat) (heap : Heap) (a : Nat) :
+    aget a (snapshotHeap id addrs heap) = aget a heap := by
+  unfold snapshotHeap
+  induction addrs generalizing heap with
+  | nil => rfl
+  | cons b rest ih =>
+    simp only [List.foldl_cons]
+    rw [ih]
+    cases hb : aget b heap with
+    | none => rfl
+    | some o =>
+      simp only [id, aget_aset]
+      by_cases hab : a = b
+      · subst hab; simp [hb]
+      · simp [hab]
+
+/-- **C08 redelivery_same_object_after_snapshots.** The shared informer delivers the object at
+address `a` (as Added or Modified; the filter evaluates on it), then any bindings read their
+snapshots any number of times (`addrs`: whatever addresses those snapshots hold — this binding's,
+another binding's on the same shared informer), then the informer delivers address `a` again
+(resync, relist): nothing is emitted. `getCachedObjects` writes nothing through the addresses it
+copies (`touch = id`); no assumption on the checksum. -/
+theorem redelivery_same_object_after_snapshots {C : Type} [DecidableEq C] (cfg : Cfg) (cks : J → C)
+    (heap : Heap) (cache : Cache C) (ev ev' : WatchEvent) (id a : Nat) (o : J) (e : Entry C)
+    (snapshots : List (List Nat))
+    (hev : ev ≠ .deleted) (hev' : ev' ≠ .deleted) (ho : aget a heap = some o)
+    (ha : applyFilter cfg cks o = some e) :
+    (handleAt cfg cks (snapshots.foldl (fun h addrs => snapshotHeap _root_.id addrs h) heap)
+      (handleAt cfg cks heap cache ev id a).1 ev' id a).2 = none := by
+  have hheap : ∀ (ss : List (List Nat)) (h : Heap),
+      aget a (ss.foldl (fun h addrs => snapshotHeap _root_.id addrs h) h) = aget a h := by
+    intro ss
+    induction ss with
+    | nil => intro h; rfl
+    | cons s rest ih => intro h; simp only [List.foldl_cons]; rw [ih, snapshotHeap_id]
+  unfold handleAt
+  rw [hheap, ho]
+  exact redelivery_after_handle cfg cks cache ev ev' id o e hev hev' ha
+
+/-- What the clause excludes, on a variant that is not the code: a snapshot read that strips
+`metadata.managedFields` "from its copy" — through the address, i.e. from the store's object — makes
+the re-delivery of the unchanged object fire Modified for a binding without jqFilter; with
+`touch = id` the same run is silent. -/
+theorem stripping_snapshot_witness :
+    let o : J := .obj [("metadata", .obj [("managedFields", .arr [.str "kubectl"]), ("name", .str "o1")])]
+    let cfg : Cfg := { types := [.added, .modified], filter := none, keep := true }
+    let heap : Heap := [(7, o)]
+    let c1 := (handleAt cfg J.print heap [] .added 1 7).1
+    (handleAt cfg J.print (snapshotHeap (stripMeta "managedFields") [7] heap) c1 .modified 1 7).2.isSome = true
+    ∧ (handleAt cfg J.print (snapshotHeap id [7] heap) c1 .modified 1 7).2.isSome = false := by
+  decide
+
+example : (handleAt exCfg id (snapshotHeap id [3, 4] [(3, exObj 1 0)])
+    (handleAt exCfg id [(3, exObj 1 0)] [] .modified 1 3).1 .modified 1 3).2.isSome = false
+    ∧ (handleAt exCfg id [(3, exObj 1 0)] [] .modified 1 3).2.isSome = true := by decide
+
 end ShellOp.Trigger.C08
